@@ -23,6 +23,18 @@ CHECKS["C12"] = dict(technique="TLC-generated command lines (Walk.tla) over an e
 CHECKS["C17"] = dict(technique="TLC-generated command lines (Walk.tla) replayed in real bash with logging probe commands; probe log, candidates and status validated by TLC against Words.tla RequiredCalls/AllowedProbes/ReplyOk (BashCheck.tla)",
              text="Commands are probes that log identity, argument count and both arguments and print fixed lines (plain, tab-separated descriptions, candidates with blanks). For each generated command line TLC decides that every required invocation happened with exactly the documented arguments, that no invocation happened at a point where the grammar does not expect that command, that candidates are the text before the first tab filtered by the typed text, and that earlier words are accepted at command points exactly when they are candidates.",
              ref="7/C17", note="Only bash is executed; commands have fixed output; the number of invocations per command is not constrained (only their arguments and whether they are justified).")
+CHECKS["C05"] = dict(technique="TLC-enumerated layouts (LayoutGen.tla) and literal spellings (Spell.tla) printed by the generator; the tree recorded from Grammar::parse is compared with the printed tree by TLC (TreeCheck.tla)",
+             text="Every normal-form tree up to a node bound, random deeper grammars under TLC-enumerated layouts (each single deviating boundary from a blank menu with comments / form feed / tabs / newlines, random multi-deviation layouts), `=`/`::=`, optional final `;`, redundant parentheses, permuted statements, all literal class strings with all dot spellings in four following contexts, and all short description strings are parsed by the real parser; TLC decides printed tree = parsed tree for each.",
+             ref="7/C05", note="Bounded tree size / string length; trees are kept in the parser's normal form; spans are not compared (C13).")
+CHECKS["C08"] = dict(technique="TLC evaluates Meaning.Verdicts (declarative well-formedness over the generator's tree) against the recorded exit status and diagnostic class of every run (VerdictCheck.tla)",
+             text="Clean-by-construction grammars, each also with one planted mistake per class at a random site (variant or used definition, behind 0-3 definitions, under any operator; cycles of length 1-4 with and without an entry point), x 4 shells: the command must exit 0 exactly when the specification finds no mistake, and otherwise exit 1 with a diagnostic whose class is one of the mistakes the specification finds; the library's Error variant must agree.",
+             ref="7/C08", note="The planted class is only a sanity condition on the oracle; regions the property leaves open (plain non-command definition of a specialised nonterminal, `p (q|r)` inside a word) are skipped or not generated; runs go through main.rs in-process with confirmation by the real binary.")
+CHECKS["C13"] = dict(technique="TLC-chosen layouts (LayoutGen.tla); Syntax.Starts recomputes token positions; every located stderr line is validated by TLC against the tokens of the sort Usage names as culprit (DiagCheck.tla)",
+             text="For grammars over a literal pool that needs backslash escapes, with one planted located mistake or warning each, printed under TLC-chosen layouts, every `<path>:<line>:<col>:` line of the command's stderr must be the start of a token of the right sort (reference / definition left-hand side / command name / shell name / literal / first token of the unparsable statement) as computed by the specification from the token list and the blank choices, and the echoed source line must be that line.",
+             ref="7/C13", note="Culprit lines are ASCII; the echoed line is compared as plain text by the harness; multi-line span marks of the renderer are tolerated.")
+CHECKS["C15"] = dict(technique="Exhaustive reference structures; TLC compares the recorded warnings, mapped to names through Syntax.Starts, with Usage.Undefined/UnusedPlain/UnusedSpec (DiagCheck.tla) and validates script equality with the twin grammar through the memo model (MemoCheck.tla)",
+             text="All 400 reference structures of two nonterminals ({plain, @target, @other, undefined} x {direct, inside a word, via a used definition, via an unused definition, nowhere}) x 4 shells: the set of warnings equals what the specification derives, each exactly once at an occurrence of the name of the right sort, exit status 0, and the script is byte-identical to that of the twin grammar without the unreachable definitions.",
+             ref="7/C15", note="Exhaustive for two names (random over four names in thorough); canonical layout (layouts are C13's subject).")
 PENDING = {}
 
 def main():
